@@ -3,7 +3,7 @@
 # (swapped ==/!= operands, flipped if/else, reworded messages, x++ -> x += 1; see
 # checker/cmd/renamer/shape.go) equal those on /repo.  usage: shape_all.sh [kinds] [props...]
 cd /verif
-KINDS=${1:-eq,else,msg,inc,ord,lit,and}; shift
+KINDS=${1:-eq,else,msg,inc,ord,lit,and,log}; shift
 PROPS=${@:-C01 C02 C03 C04 C05 C06 C07 C08 C09 C10 C11 C12 C13 C14 C15 C16 C17 C18 C20}
 T=$(mktemp -d /tmp/lunar-shape-XXXX)
 trap 'rm -rf $T' EXIT
